@@ -656,6 +656,12 @@ class ObjectStore:
         self.store: Dict[int, Any] = {}
         self.constructed: Set[int] = set()
         self.executed: Set[int] = set()
+        # The store is keyed by id(config): keeps the configurations alive so
+        # that the identifier of a dead one is never given to another one
+        self.configs: Dict[int, Any] = {}
+
+    def hold(self, config: Any):
+        self.configs[id(config)] = config
 
     def set_executed(self, identifier: int) -> bool:
         """Marks a pre-task as executed: returns False if it already was"""
@@ -1804,6 +1810,7 @@ class ConfigInformation:
 
                 # Store in cache
                 self.objects.add_stub(id(config), o)
+                self.objects.hold(config)
 
             return o
 
